@@ -71,6 +71,12 @@ def degenerate_modules(tier):
     add("cyclic aliases (3) with a value", "A ::= B B ::= C C ::= A v B ::= TRUE")
     add("cyclic aliases in a component with DEFAULT", f"A ::= B B ::= A S ::= SEQUENCE {{ a A DEFAULT {P1} }}")
     add("cyclic value references", "a INTEGER ::= b b INTEGER ::= a")
+    add("cyclic BOOLEAN value references", "a BOOLEAN ::= b b BOOLEAN ::= a")
+    add("cyclic string value references (3)", "a UTF8String ::= b b UTF8String ::= c c UTF8String ::= a")
+    add("self-referencing value", "a BOOLEAN ::= a b INTEGER ::= b")
+    add("DEFAULT naming cyclic value references", "a BOOLEAN ::= b b BOOLEAN ::= a S ::= SEQUENCE { x BOOLEAN DEFAULT a, y INTEGER DEFAULT c } c INTEGER ::= d d INTEGER ::= c")
+    add("cyclic value references of a referenced type", f"T ::= INTEGER (0..{P1}) a T ::= b b T ::= a E ::= ENUMERATED {{ x }} e E ::= f f E ::= e")
+    add("cyclic value references inside values", "L ::= SEQUENCE OF BOOLEAN a BOOLEAN ::= b b BOOLEAN ::= a Ll ::= SEQUENCE OF BOOLEAN v Ll ::= { a, b } C ::= CHOICE { p BOOLEAN } w C ::= p:a")
     add("constraint on cyclic value references", "a INTEGER ::= b b INTEGER ::= a T ::= INTEGER (a..MAX)")
     add("self-referencing constraint value", "a INTEGER (0..a) ::= 5")
     add("components of itself", "A ::= SEQUENCE { x NULL, COMPONENTS OF A }")
